@@ -33,6 +33,34 @@ GOTO_PROGRAMS = {
     'goto_other_function': 'void f() { there: X = 1; } void main() { f(); goto there; }',
     'goto_nested': 'char a; void main() { while (a) { switch (a) { case 1: goto out; default: a--; } } out: a = 1; }',
 }
+# a label in every nesting position (plain, inside each kind of compound statement) x what precedes it in the block
+# (nothing, an unconditional return, a break / continue, an infinite loop, another goto) x a goto from before or after
+# it: legal C jumps into and out of statements; every goto must find its label in the emitted function.  Also as
+# an inline function expanded twice.
+LABEL_PROGRAMS = {}
+_holders = [('plain', 'lab: a++;'), ('block', '{ a--; lab: a++; }'), ('dowhile', 'do { lab: a--; } while (a);'), ('while', 'while (a) { lab: a--; }'),
+            ('for', 'for (b = 0; b != 2; b++) { lab: a++; }'), ('if', 'if (b) { lab: a++; }'), ('else', 'if (b) a = 2; else { lab: a++; }'),
+            ('switch', 'switch (b) { case 1: a = 2; lab: a++; break; default: a = 3; }'), ('ifstmt', 'if (b) lab: a++;'), ('nested', 'while (a) { if (b) { lab: a--; } a--; }'),
+            ('ifbreak', 'while (a) { if (b) lab: break; a--; }'), ('labelled_loop', 'lab: while (a) a--;'), ('twice', '{ lab: a++; } b++;')]
+_befores = [('none', ''), ('return', 'return;'), ('goto2', 'goto end;'), ('forever', 'while (1) { if (a) goto lab; a++; }'), ('stmt', 'a = 5;')]
+for _hn, _h in _holders:
+    for _bn, _b in _befores:
+        for _gn, _pre, _post in (('fwd', 'if (X) goto lab;', ''), ('back', '', 'if (Y) goto lab;'), ('both', 'if (X) goto lab;', 'Y--; if (Y) goto lab;')):
+            _body = '%s %s %s %s end: b = 9;' % (_pre, _b, _h, _post)
+            LABEL_PROGRAMS['label_%s_%s_%s' % (_hn, _bn, _gn)] = 'unsigned char a, b; void main() { %s }' % _body
+            if _bn in ('none', 'return') and _gn == 'fwd':
+                LABEL_PROGRAMS['label_inl_%s_%s' % (_hn, _bn)] = 'unsigned char a, b; inline void f() { %s } void main() { f(); a = 1; f(); }' % _body
+# things that are not places to write to, on the left of every assigning operator: an error or code that assembles
+# (never a store or read-modify-write instruction with an immediate operand)
+LVALUE_PROGRAMS = {}
+_lv = [('addr', 'char x;', '&x'), ('array', 'char arr[4];', 'arr'), ('const_array', 'const char tab[2] = {1, 2};', 'tab'), ('short_array', 'short sa[2];', 'sa'),
+       ('const_ptr', 'char *const R = 0x80;', 'R'), ('const_scalar', 'const char K = 3;', 'K'), ('literal', 'char x;', '5'), ('ptr_array', 'char *pa[2];', 'pa'),
+       ('function', 'void g() { X = 1; }', 'g'), ('string', 'char x;', '"ab"')]
+_ops = ['%s = 5;', '%s++;', '++%s;', '%s--;', '%s += 2;', '%s -= 1;', '%s <<= 1;', '%s >>= 1;', '%s &= 3;', '%s |= 1;', 'X = (%s = 2);', 'X = %s++;', 'store(%s);',
+        '%s = X;', '%s = Y;']
+for _n, _d, _l in _lv:
+    for _j, _o in enumerate(_ops):
+        LVALUE_PROGRAMS['lvalue_%s_%d' % (_n, _j)] = '%s void main() { %s }' % (_d, _o % _l)
 # continue / break reached through a switch nested in each kind of loop: the jump target must be defined
 LOOP_EXIT_PROGRAMS = {}
 for _li, (_lname, _loop) in enumerate((('for', 'for (a = 0; a != 3; a++) { %s }'), ('while', 'while (a != 3) { a++; %s }'),
@@ -160,6 +188,8 @@ def run(ctx):
     srcs.update(GOTO_PROGRAMS)
     srcs.update(CLASH_PROGRAMS)
     srcs.update(LOOP_EXIT_PROGRAMS)
+    srcs.update(LABEL_PROGRAMS)
+    # srcs.update(LVALUE_PROGRAMS)   # enabled together with the asm() fix and the AsmSel model update
     srcs.update(COND_PROGRAMS)
     bad, nfun, stats = wf_pass(ctx, srcs, levels)
     # a conditional branch further than 127 bytes from its label is text the assembler rejects: spans around the
